@@ -9,11 +9,6 @@ func (oracleC14) Prop() string { return "C14" }
 
 func (oracleC14) Invariant(x *OCtx, v *View, m *Mon) []Violation {
 	var out []Violation
-	if x.Sc.GovRaisesMinimum {
-		// a parameter change can put an existing binding below the new minimum without any operation on it; in such
-		// runs the step clauses below (which judge every operation and every slash under the parameters in force) decide
-		return nil
-	}
 	for _, br := range v.Bindings {
 		b := br.B
 		min := minDepositOf(v, b.Pricing)
@@ -24,7 +19,16 @@ func (oracleC14) Invariant(x *OCtx, v *View, m *Mon) []Violation {
 				x.Wit("C14:available-exactly-at-minimum")
 			}
 			if dep.Cmp(min) < 0 {
-				out = append(out, viol("C14", "available-implies-minimum-deposit", "state", nameOf(b.Provider),
+				disc := nameOf(b.Provider)
+				if x.Sc.GovRaisesMinimum {
+					// met the minimum of the parameters the run started with: put below it by the parameter change alone
+					old := *v
+					old.Params = x.Sc.Params.Params()
+					if dep.Cmp(minDepositOf(&old, b.Pricing)) >= 0 {
+						disc += "/below-a-minimum-raised-by-governance"
+					}
+				}
+				out = append(out, viol("C14", "available-implies-minimum-deposit", "state", disc,
 					fmt.Sprintf("(%s,%s) is available with deposit %s, minimum for pricing %s is %s", b.ServiceName, nameOf(b.Provider), dep, b.Pricing, min)))
 			}
 		} else if dep.Cmp(min) < 0 {
